@@ -25,7 +25,7 @@ RULE = (
     "pair of distinct objects; distinct = distinct (family fingerprint, i, j)"
 )
 ASSUMPTIONS = ["origins are produced by the library's constructors / merge_origins", "content equality itself is C01's subject: frozenset order and separator re-splits are not generated here"]
-MUST_SEE = ["rejected_replace_then_hash", "permissive_non_node_comparisons", "one_origin_diff_depth_ge2", "equal_pairs_distinct_objects", "triples", "confusable_origin_pairs", "serial_families", "non_node_comparisons", "hash_rechecks", "shared_subtrees", "shared_vs_unshared_families"]
+MUST_SEE = ["trees_sharing_child_objects", "rejected_replace_then_hash", "permissive_non_node_comparisons", "one_origin_diff_depth_ge2", "equal_pairs_distinct_objects", "triples", "confusable_origin_pairs", "serial_families", "non_node_comparisons", "hash_rechecks", "shared_subtrees", "shared_vs_unshared_families"]
 CONFIG = {
     "quick": {"shards": 16, "families": 500, "watchdog_s": 300},
     "thorough": {"shards": 32, "families": 500, "watchdog_s": 3000},
@@ -221,6 +221,30 @@ def run_shard(ctx):
         ctx.evaluations += 1
         if (u == w) is not False or (u != w) is not True:
             ctx.violation("eq-other-class", "instances of two different classes with the same name (class redefined) compare equal", {"class": f"{P}Redef2"})
+    # two trees that share child *objects* (as after a transformation that re-uses untouched children) and differ
+    # in one origin at a later / earlier sibling or below it: every position is compared, shared ones included
+    Leaf, Un, Call, Lst = U.cls[f"{P}Leaf"], U.cls[f"{P}Un"], U.cls[f"{P}Call"], U.cls[f"{P}List"]
+    o1, o2 = O.build_origin(("code", 0, 1, 3)), O.build_origin(("code", 0, 1, 4))
+    for k in range(8):
+        shared = [Un(child=Leaf(v=k, s="sh"), origin=o1), Leaf(v=100 + k, origin=o2)]
+        deep_a, deep_b = Un(child=Leaf(v=7, origin=o1)), Un(child=Leaf(v=7, origin=o2))
+        shapes = [
+            (lambda x: Call(args=(shared[0], x, shared[1])), deep_a, deep_b),
+            (lambda x: Call(args=(shared[0], shared[1], x)), deep_a, deep_b),
+            (lambda x: Call(args=(x, shared[0])), deep_a, deep_b),
+            (lambda x: Call(args=(shared[0],), fn=shared[1], kwargs=(x,)), Leaf(v=1, origin=o1), Leaf(v=1, origin=o2)),
+            (lambda x: Lst(items=(shared[0], Call(args=(shared[1], x)))), deep_a, deep_b),
+        ]
+        mk, xa, xb = shapes[k % len(shapes)]
+        ta, tb, tc = mk(xa), mk(xb), mk(xa)
+        ctx.count("trees_sharing_child_objects")
+        ctx.evaluations += 3
+        if (ta == tb) is not False or (tb == ta) is not False or (ta != tb) is not True:
+            ctx.violation("eq-vs-reference", "two trees sharing child objects and differing in one origin at another sibling compare equal", {"shape": k % len(shapes), "got": True, "exp": False})
+        if (ta == tc) is not True:
+            ctx.violation("eq-vs-reference", "two equal trees sharing child objects compare unequal", {"shape": k % len(shapes), "got": False, "exp": True})
+        for x_ in (ta, tb, tc):
+            x_.detach()
     # a replace() that is rejected after the rejected copy had been registered (the class validates after the base):
     # the receiver's hash, and so its membership in sets and dicts, stays what it was
     for k in range(6):
